@@ -38,7 +38,7 @@ def check(case, ctx):
     ctx.stats.case(case, nt, labels)
 
 
-MIXED_NAMES = ["a", "1", "2", "3", "b", "4", "10", "c", "5", "6", "7", "d", "8", "9", "11", "12"]
+MIXED_NAMES = ["a", "7", "007", "3", "b", "4", "10", "c", "5", "6", "01", "d", "8", "9", "11", "1"]
 
 
 @st.composite
